@@ -166,6 +166,9 @@ static void *smoke_worker(void *arg)
 	ovni_thread_init(2000 + k);
 	ovni_thread_require("test", "1.0.0");
 	ovni_add_cpu(k, 100 + k);
+	/* only thread 0 announces a rank: "what that thread set" must not show up in the others' metadata */
+	if (k == 0)
+		ovni_proc_set_rank(2, 4);
 	ovni_attr_set_double("c11.mine", 2000 + k);
 	for (uint64_t i = 0; i < NEV; i++) {
 		struct ovni_ev ev = {0};
@@ -222,6 +225,11 @@ static int check_stream(int k, char *why, size_t n)
 	ok = ok && cpus && json_array_get_count(cpus) == 1
 		&& json_object_get_number(json_array_get_object(cpus, 0), "index") == k
 		&& json_object_get_number(json_array_get_object(cpus, 0), "phyid") == 100 + k;
+	/* the rank is in the metadata of the thread that set it, and of no other thread */
+	if (k == 0)
+		ok = ok && json_object_dotget_number(o, "ovni.rank") == 2 && json_object_dotget_number(o, "ovni.nranks") == 4;
+	else
+		ok = ok && !json_object_dothas_value(o, "ovni.rank") && !json_object_dothas_value(o, "ovni.nranks");
 	json_value_free(val);
 	if (!ok) { snprintf(why, n, "%s: metadata of another thread or incomplete", path); return 0; }
 	return 1;
